@@ -791,6 +791,20 @@ fn run_one(script: &J, work: &str) -> Result<Vec<J>, String> {
             c["trlen"] = json!(rel);
         }
     }
+    // request numbers relative to the script (the handshake used 1..hs)
+    let renum = |e: &mut J| {
+        for k in ["seq", "rseq"] {
+            let is_req_no = (k == "seq" && (e["a"] == "Send" || e["a"] == "Read")) || (k == "rseq");
+            if is_req_no {
+                if let Some(v) = e[k].as_i64() {
+                    e[k] = json!(v - hs);
+                }
+            }
+        }
+    };
+    let mut tr = tr;
+    tr.iter_mut().for_each(renum);
+    client.iter_mut().for_each(renum);
     let mut out = vec![json!({"a": "Reset", "id": script["id"], "kind": script["kind"], "entry": entry, "gen": gen0, "nbps": n0})];
     out.extend(merge(&tr, &client)?);
     match (&panic_line, x.wedged) {
